@@ -178,4 +178,55 @@ def SpellsStream {R : Type} (pr : List UInt8 → Option R) (info : List (List UI
   ∃ g1 ents g2 eol g3, txt = 60 :: 60 :: g1 ++ ents ++ g2 ++ kwStream ++ eol ++ data ++ g3 ++ kwEndstream ∧
     Gap g1 ∧ SpellsEntries pr info ents ∧ Gap g2 ∧ (eol = [10] ∨ eol = [13, 10]) ∧ Gap g3
 
+
+/-! ### side conditions of the theorems -/
+
+mutual
+/-- nesting depth of arrays / dictionaries (the parser's `MAX_DEPTH` budget) -/
+def vdepth {R : Type} : Prim R → Nat
+  | .arr xs => 1 + vdepthL xs
+  | .dict kvs => 1 + vdepthE kvs
+  | .stream info _ => 1 + vdepthE info
+  | _ => 0
+def vdepthL {R : Type} : List (Prim R) → Nat
+  | [] => 0
+  | x :: xs => max (vdepth x) (vdepthL xs)
+def vdepthE {R : Type} : List (List UInt8 × Prim R) → Nat
+  | [] => 0
+  | (_, v) :: rest => max (vdepth v) (vdepthE rest)
+end
+
+mutual
+/-- fuel that the model's parser needs for a value (at most three times the length of any spelling) -/
+def need {R : Type} : Prim R → Nat
+  | .arr xs => 2 + needL xs
+  | .dict kvs => 2 + needE kvs
+  | .stream info _ => 2 + needE info
+  | _ => 2
+def needL {R : Type} : List (Prim R) → Nat
+  | [] => 1
+  | x :: xs => 1 + need x + needL xs
+def needE {R : Type} : List (List UInt8 × Prim R) → Nat
+  | [] => 1
+  | (_, v) :: rest => 1 + need v + needE rest
+end
+
+def keysOf {R : Type} (kvs : List (List UInt8 × Prim R)) : List (List UInt8) := kvs.map (·.1)
+
+mutual
+/-- invariants of the Rust types: a `Name` is a string (valid UTF-8), the keys of a dictionary are distinct -/
+def WF {R : Type} : Prim R → Prop
+  | .name s => PdfLex.utf8Valid s = true
+  | .arr xs => WFL xs
+  | .dict kvs => WFE kvs ∧ (keysOf kvs).Nodup
+  | .stream info _ => WFE info ∧ (keysOf info).Nodup
+  | _ => True
+def WFL {R : Type} : List (Prim R) → Prop
+  | [] => True
+  | x :: xs => WF x ∧ WFL xs
+def WFE {R : Type} : List (List UInt8 × Prim R) → Prop
+  | [] => True
+  | (k, v) :: rest => PdfLex.utf8Valid k = true ∧ WF v ∧ WFE rest
+end
+
 end PdfSyntax
